@@ -6,7 +6,10 @@ import ProfiVerif.Props.C11
 import ProfiVerif.Props.C15
 import ProfiVerif.Props.C16
 import ProfiVerif.Props.C02
+import ProfiVerif.Props.C13
 import ProfiVerif.Lemmas.StationProgress
+import ProfiVerif.Lemmas.TimedRing2Step
+import ProfiVerif.Lemmas.TimedRingCrash
 
 namespace PV.C06
 open PV
@@ -413,5 +416,137 @@ example : ∃ c', pollInner { s := listenDemo, apps := [], rx := [] } 1600 false
   obtain ⟨c', h, -, htx, -⟩ := claim_progress { s := listenDemo, apps := [], rx := [] }
     1600 0 hinv rfl rfl rfl rfl (Or.inl ⟨none, 0, rfl⟩) (by decide) (by decide)
   exact ⟨c', h, htx⟩
+
+/-! ## Ring level: the successor stops for good in the timed two-station ring -/
+
+/-- The ring invariant of C01 in phase `pass` (station `x` has just passed the token) gives the crash invariant
+`CInv` for `x`, provided `x` was last polled before its slot time ran out. -/
+theorem crash_invariant_of_ring (cfg : Cfg) (M : List Nat) (adr : Nat → Nat) (n : Net) (v : NView)
+    (h : NInv cfg M adr n v) (hph : v.ph = .pass)
+    (hseen : n.bus.seen.getD v.x 0 ≤ v.tr.start + (cfg.b33 : Nat) + (cfg.slot : Nat)) :
+    CInv cfg M adr n v.x v.sx .first v.tr.start :=
+  CInv.ofNInv h hph hseen
+
+/-- **Recovery from a dead successor in the timed two-station ring** (ring-level clause of C06, clean crash).
+Two station models on the byte-accurate bus of `Model/Net.lean`; station `x` has passed the token to the other
+station at `s0` (ring invariant `NInv` of C01 in phase `pass`); from then on the other station is never polled
+again — it does not accept the token and stays silent — and `x` is polled at increasing times with gaps at most
+`P` (`2 + 2P + bits 33 + ⌈11 bit⌉ ≤ Tslot`).  Then (`CrashRun`): every poll of `x` returns regularly and
+receives nothing; `x` transmits exactly at the first poll after each slot-time expiry — the same token to the
+dead station a second and a third time, the `k`-th transmission no later than `s0 + (k−1)·(bits 33 + Tslot + P)`
+— and at the first poll after the third expiry, no later than `s0 + 3·(bits 33 + Tslot + P)`, it removes the
+dead station from its LAS, sends the token to itself and is in `UseToken`, alone in its ring view
+(`RingView [adr x]`: LAS = {own address}, NS = PS = TS); every later poll returns regularly. -/
+theorem successor_crash_recovery (cfg : Cfg) (hok : cfg.Ok) (M : List Nat) (adr : Nat → Nat) (n : Net) (v : NView)
+    (h : NInv cfg M adr n v) (hph : v.ph = .pass) (hN : n.stations.length = 2)
+    (hseen : n.bus.seen.getD v.x 0 ≤ v.tr.start + (cfg.b33 : Nat) + (cfg.slot : Nat))
+    (evs : List Int) (hs : SchedXT cfg.P (n.bus.seen.getD v.x 0) evs) :
+    CrashRun cfg M adr v.x v.tr.start 1 n evs :=
+  crash_run hok M adr v.x v.tr.start evs n v.sx .first v.tr.start (CInv.ofNInv h hph hseen) hN (by simp [Attempt.num]) hs
+
+/-- The three kinds of poll of the survivor, one at a time (`CInv` is kept until recovery). -/
+theorem successor_crash_wait (cfg : Cfg) (hok : cfg.Ok) (M : List Nat) (adr : Nat → Nat) (n : Net) (x : Nat) (sx : NetStation)
+    (att : Attempt) (s : Int) (h : CInv cfg M adr n x sx att s) (now : Int) (hown : n.bus.seen.getD x 0 < now)
+    (hw : now ≤ s + (cfg.b33 : Nat) + (cfg.slot : Nat)) :
+    ∃ n' c, n.poll x now = (n', [], some (.ok c)) ∧ c.tx = none ∧ CInv cfg M adr n' x sx att s :=
+  crash_wait h hok now hown hw
+
+theorem successor_crash_resend (cfg : Cfg) (hok : cfg.Ok) (M : List Nat) (adr : Nat → Nat) (n : Net) (x : Nat) (sx : NetStation)
+    (att : Attempt) (s : Int) (h : CInv cfg M adr n x sx att s) (hatt : att ≠ .third) (now : Int)
+    (hown : n.bus.seen.getD x 0 < now) (hexp : s + (cfg.b33 : Nat) + (cfg.slot : Nat) < now) :
+    ∃ n' c next, n.poll x now = (n', [], some (.ok c)) ∧
+      c.tx = some (StationGap.tokenBytes (TokenRing.cycSucc (adr x) M) (adr x)) ∧
+      ((att = .first ∧ next = .second) ∨ (att = .second ∧ next = .third)) ∧
+      CInv cfg M adr n' x (upSt sx c) next now :=
+  crash_resend h hok hatt now hown hexp
+
+theorem successor_crash_removed (cfg : Cfg) (hok : cfg.Ok) (M : List Nat) (adr : Nat → Nat) (n : Net) (x : Nat) (sx : NetStation)
+    (s : Int) (h : CInv cfg M adr n x sx .third s) (hN : n.stations.length = 2) (now : Int)
+    (hown : n.bus.seen.getD x 0 < now) (hexp : s + (cfg.b33 : Nat) + (cfg.slot : Nat) < now) :
+    ∃ n' c, n.poll x now = (n', [], some (.ok c)) ∧ c.tx = some (StationGap.tokenBytes (adr x) (adr x)) ∧
+      c.s.st = .useToken ⟨now, none⟩ false ∧ RingView [adr x] (adr x) c.s.ring ∧ Inv c.s c.apps ∧
+      n'.stations[x]? = some (upSt sx c) :=
+  crash_final h hok hN now hown hexp
+
+/-! Non-vacuity: stations 3 and 5 (indices 0, 1) at 500 kbit/s, `Tslot` = 400 µs, `P` = 100 µs (parameters and ring
+views of the C13 example).  Station 5 passed the token to station 3 at time 0 (its poll at 0) and supervises;
+station 3, last polled at −30 µs, has not seen anything of the token yet — and is never polled again.  Station 5
+is polled every 90 µs: it repeats the token at 540 and 1080 µs, removes station 3 at 1620 µs ≤ 3·566 µs. -/
+open PV.C13 in
+def sC5 : Station :=
+  { (Station.new pR5) with online := true, st := .checkTokenPass .first, lastBusActivity := some 66, ring := ringR 5 }
+open PV.C13 in
+def sC3 : Station :=
+  { (Station.new pR3) with online := true, st := .activeIdle none none 0, lastBusActivity := some (-40), ring := ringR 3 }
+
+open PV.C13 in
+theorem sC5_inv : Inv sC5 [] := by
+  have h := inv_new pR5 [] (by decide) (by decide) (by intro s hs; cases hs)
+  exact ⟨h.addr, h.hsa, ringR_ok 5 (by decide), fun ho => by simp [sC5] at ho, h.gap, fun a ha => by simp [sC5] at ha,
+    fun a ha => by simp [sC5] at ha, h.app, fun a d ha => by simp [sC5] at ha, h.scripts, by simp [sC5]⟩
+open PV.C13 in
+theorem sC3_inv : Inv sC3 [] := by
+  have h := inv_new pR3 [] (by decide) (by decide) (by intro s hs; cases hs)
+  exact ⟨h.addr, h.hsa, ringR_ok 3 (by decide), fun ho => by simp [sC3] at ho, h.gap, fun a ha => by simp [sC3] at ha,
+    fun a ha => by simp [sC3] at ha, h.app, fun a d ha => by simp [sC3] at ha, h.scripts, by simp [sC3]⟩
+
+def tokC : Transmission := { start := 0, sender := 1, bytes := StationGap.tokenBytes 3 5, dropped := false }
+def nsC3 : NetStation := { s := sC3, apps := [], online := true }
+def nsC5 : NetStation := { s := sC5, apps := [], online := true }
+def netC : Net := { bus := { rate := 500000, txs := [tokC], seen := [-30, 0] }, stations := [nsC3, nsC5] }
+def viewC : NView := { x := 1, sx := nsC5, pre := [], tr := tokC, ph := .pass, H := 332, Lo := 132, tl := 0 }
+
+open PV.C13 in
+theorem stokC3 : StOkN cfgR MR nsC3 3 :=
+  ⟨rfl, rfl, (fun s hs => by cases hs), sC3_inv, rfl, rfl, rfl, rfl, ringR_view 3 (by decide), by decide⟩
+open PV.C13 in
+theorem stokC5 : StOkN cfgR MR nsC5 5 :=
+  ⟨rfl, rfl, (fun s hs => by cases hs), sC5_inv, rfl, rfl, rfl, rfl, ringR_view 5 (by decide), by decide⟩
+
+open PV.C13 in
+theorem ninvC : NInv cfgR MR adrR netC viewC := by
+  refine ⟨ringCfgR, by decide, rfl, stokC5, ⟨rfl, rfl, rfl, rfl, List.pairwise_singleton _ _, ?_, ?_⟩, rfl, ?_, ?_, ?_, ?_, ?_,
+    rfl, rfl, ?_⟩
+  · intro t ht; simp only [netC, List.mem_singleton] at ht; subst ht; rfl
+  · intro t ht; simp only [netC, List.mem_singleton] at ht; subst ht
+    exact ⟨1, by decide, rfl, .inl (by decide)⟩
+  · intro o ho; simp only [netC, List.mem_singleton] at ho; subst ho; exact .inl rfl
+  · intro l hl o ho hs; simp only [netC, List.mem_singleton] at ho; subst ho
+    have : l = 66 := by
+      have : viewC.sx.s.lastBusActivity = some 66 := rfl
+      rw [this] at hl; exact (Option.some.inj hl).symm
+    subst this; decide
+  · intro j hj hjx
+    have : j = 0 := by simp only [netC, viewC, List.length_cons, List.length_nil] at hj hjx; omega
+    subst this
+    refine ⟨nsC3, rfl, stokC3, [], [tokC], true, -40, rfl, ?_, ?_, by decide, by decide, ?_, ?_, rfl, .inl (by decide), ?_, ?_, ?_⟩
+    · intro o ho; cases ho
+    · intro t ht; simp only [List.mem_singleton] at ht; subst ht; decide
+    · intro o ho hs; simp only [netC, List.mem_singleton] at ho; subst ho; cases hs
+    · intro t rest hrs; cases hrs; decide
+    · intro t ht; cases ht
+    · intro _; simp
+    · simp only [if_true]; exact ⟨⟨none, 0, rfl⟩, by decide⟩
+  · intro j hj
+    have : j = 0 ∨ j = 1 := by simp only [netC, List.length_cons, List.length_nil] at hj; omega
+    rcases this with rfl | rfl <;> decide
+  · intro t ht; simp only [netC, List.mem_singleton] at ht; subst ht; decide
+  · unfold PhaseOkN
+    show _ ∧ _
+    refine ⟨rfl, by decide, rfl, rfl, by decide, by decide, by decide, ?_⟩
+    intro s hs hsa
+    have : s = 0 ∨ s = 1 := by simp only [netC, List.length_cons, List.length_nil] at hs; omega
+    rcases this with rfl | rfl
+    · decide
+    · exact absurd hsa (by decide)
+
+def evsC : List Int :=
+  [90, 180, 270, 360, 450, 540, 630, 720, 810, 900, 990, 1080, 1170, 1260, 1350, 1440, 1530, 1620, 1710, 1800]
+
+open PV.C13 in
+example : CrashRun cfgR MR adrR 1 0 1 netC evsC :=
+  successor_crash_recovery cfgR cfgR_ok MR adrR netC viewC ninvC rfl rfl (by decide) evsC (by
+    show SchedXT 100 0 evsC
+    simp [SchedXT, evsC])
 
 end PV.C06
